@@ -264,10 +264,10 @@ class CmdChecker:
             return text, None, None, None
         if prep != want:
             ctx.violation(f"prepare_command({text!r}) = {prep!r}, Script.tla: {want!r}", rep)
-        if eof != a.name(c["eof"]):
-            ctx.violation(f"get_command_eof({prep!r}) = {eof!r}, Script.tla: {a.name(c['eof'])!r}", rep)
-        if reof != a.name(c["raweof"]):
-            ctx.violation(f"get_command_eof({text!r}) = {reof!r}, Script.tla: {a.name(c['raweof'])!r}", rep)
+        # which free candidate is chosen is as-built detail (the model takes the least one): a different
+        # choice is drift, not a violation; the laws are judged on the real wrapper right below
+        if eof != a.name(c["eof"]) or reof != a.name(c["raweof"]):
+            self.stats["terminator_choice_drift"] = self.stats.get("terminator_choice_drift", 0) + 1
         bad = self.heredoc_law(a, prep, eof, wrapped)
         if bad:
             ctx.violation(f"get_wrapped_command({prep!r}): {bad}", rep)
@@ -905,9 +905,9 @@ def run(ctx: Ctx) -> None:
                     "result": gsample["res"]})
 
     # ---- 7. model-level controls: each law fails for the mutated model -------------------------
-    ctl = [("eof_fixed", "TerminatorOK", "cmd")]
+    ctl = []
     if not ctx.quick:
-        ctl += [("no_dedent", "PrepareOK", "cmd"), ("unquoted", "HeredocOK", "cmd"),
+        ctl += [("eof_fixed", "TerminatorOK", "cmd"), ("no_dedent", "PrepareOK", "cmd"), ("unquoted", "HeredocOK", "cmd"),
                 ("unstage_first", "StagingOK", "io"), ("stdout_kept", "ShapeOK", "io")]
     for variant, inv, mode in ctl:
         r = run_tlc("seq/Script_Gen.tla", gen_cfg(mode, 2, True, dsh_len, variant=variant, emit=False, invs=(inv,)),
